@@ -202,6 +202,31 @@ func (b *box) big(p *ext.Packet, q ext.Peer, ts int64) (bool, error) {
 	return r.th > 2*ts/3, nil
 }
 
+func nestedLoops(n int, m int) int {
+	s := 0
+	for i := 0; i < n; i++ {
+		for j := i; j < m; j++ {
+			if j == 7 {
+				return -1
+			}
+			s += j
+		}
+	}
+	return s
+}
+
+func twoLoops(a uint32) uint32 {
+	c := uint32(0)
+	for a > 0 {
+		a >>= 1
+		c++
+	}
+	for c%4 != 0 {
+		c++
+	}
+	return c
+}
+
 // ---- outside the subset
 
 func usesFloat(x float64) bool { return x > 0 }
